@@ -60,15 +60,19 @@ func repsFor(kind string, reps, xreps int) int {
 	return reps
 }
 
-func runCases(cases []*filterh.Case, classes []string, reps, xreps int, src string, out *sink) map[string]any {
+func runCases(cases []*filterh.Case, classes []string, reps, xreps int, src string, reeval int, out *sink) map[string]any {
 	kinds := map[string]int{}
-	drift := 0
-	multi := 0
+	drift, multi, reevals, runs := 0, 0, 0, 0
+	prev := map[string]*filterh.Case{}
 	for i, c := range cases {
 		if c.Kind == "PreparedQueryOne" && (len(c.Groups) == 0 || len(c.Groups[0].Items) == 0) {
 			continue // **PreparedQuery is never nil at the call sites; redactPreparedQueryTokens dereferences it
 		}
-		for _, cl := range classes {
+		cls := classes
+		if c.Prior == "yes" && len(classes) > 1 {
+			cls = []string{classes[i%len(classes)]} // a reply with the flag already raised: one authorizer class, rotating
+		}
+		for _, cl := range cls {
 			evs, err := filterh.Exec(filterh.Clone(c), cl, repsFor(c.Kind, reps, xreps), src, i)
 			if err != nil {
 				die("case %d (%s): %v", i, c.Kind, err)
@@ -81,10 +85,27 @@ func runCases(cases []*filterh.Case, classes []string, reps, xreps int, src stri
 				multi++
 			}
 			kinds[c.Kind]++
+			runs++
+		}
+		// two evaluations on ONE reply object (blockingquery.Query): the previous response of this type first, this one second
+		if reeval > 0 && c.Prior != "yes" && filterh.HasFlagField(c.Kind) {
+			if p, ok := prev[c.Kind]; ok && i%reeval == 0 {
+				ev, err := filterh.ExecReeval(filterh.Clone(p), filterh.Clone(c), classes[i%len(classes)], src, i)
+				if err != nil {
+					die("reeval case %d (%s): %v", i, c.Kind, err)
+				}
+				if ev != nil {
+					out.put(ev)
+					drift += len(ev.Drift)
+					reevals++
+					runs++
+				}
+			}
+			prev[c.Kind] = c
 		}
 	}
-	return map[string]any{"events": out.n, "cases": len(cases), "behaviours": len(cases) * len(classes), "kinds": kinds,
-		"drift": drift, "order_dependent_cases": multi}
+	return map[string]any{"events": out.n, "cases": len(cases), "behaviours": runs, "kinds": kinds,
+		"drift": drift, "order_dependent_cases": multi, "reevaluations": reevals}
 }
 
 func main() {
@@ -102,6 +123,7 @@ func main() {
 	par := fs.Int("par", 64, "concurrent expiry histories")
 	lead := fs.Int("lead", 150, "ms between token creation and its expiration time")
 	margin := fs.Int("margin", 250, "ms after the expiration time at which `expire` returns")
+	reeval := fs.Int("reeval", 4, "every n-th case of a flagged type is also run as the second evaluation on a re-used reply object (0: off)")
 	perturb := fs.String("perturb", "", "selftest shim: drop-last | flip-flag (falsifies the recorded result of the real call)")
 	fs.Parse(os.Args[2:])
 	filterh.Perturb = *perturb
@@ -120,34 +142,52 @@ func main() {
 		if err := json.Unmarshal(b, &cases); err != nil {
 			die("decode %s: %v", *in, err)
 		}
-		meta = runCases(cases, strings.Split(*classes, ","), *reps, *xreps, "gen", out)
+		meta = runCases(cases, strings.Split(*classes, ","), *reps, *xreps, "gen", *reeval, out)
 	case "random":
 		r := rand.New(rand.NewSource(*seed))
 		kinds := filterh.AllKinds()
-		var cases []*filterh.Case
-		for i := 0; i < *n; i++ {
-			cases = append(cases, filterh.RandCase(r, kinds[i%len(kinds)]))
-		}
 		cl := strings.Split(*classes, ",")
-		// one class per case, rotating
 		kindsCount := map[string]int{}
-		drift, multi := 0, 0
-		for i, c := range cases {
-			evs, err := filterh.Exec(c, cl[(i/len(kinds))%len(cl)], repsFor(c.Kind, *reps, *xreps), "rnd", i)
-			if err != nil {
-				die("random case %d (%s): %v", i, c.Kind, err)
+		drift, multi, reevals, runs := 0, 0, 0, 0
+		for i := 0; i < *n; i++ {
+			c := filterh.RandCase(r, kinds[i%len(kinds)])
+			filterh.RandPrior(r, c)
+			class := cl[(i/len(kinds))%len(cl)] // one class per case, rotating
+			var first *filterh.Case
+			if filterh.HasFlagField(c.Kind) && c.Prior == "no" && r.Intn(3) == 0 {
+				// blocking-query history on one reply: a first content, then this one (often with nothing left to remove)
+				first = filterh.RandCase(r, c.Kind)
+				first.Acl = c.Acl
+				if r.Intn(2) == 0 {
+					filterh.MakeReadable(c)
+				}
 			}
-			for _, ev := range evs {
+			if first != nil {
+				ev, err := filterh.ExecReeval(first, c, class, "rnd", i)
+				if err != nil {
+					die("random reeval case %d (%s): %v", i, c.Kind, err)
+				}
 				out.put(ev)
 				drift += len(ev.Drift)
-			}
-			if len(evs) > 1 {
-				multi++
+				reevals++
+			} else {
+				evs, err := filterh.Exec(c, class, repsFor(c.Kind, *reps, *xreps), "rnd", i)
+				if err != nil {
+					die("random case %d (%s): %v", i, c.Kind, err)
+				}
+				for _, ev := range evs {
+					out.put(ev)
+					drift += len(ev.Drift)
+				}
+				if len(evs) > 1 {
+					multi++
+				}
 			}
 			kindsCount[c.Kind]++
+			runs++
 		}
-		meta = map[string]any{"events": out.n, "cases": len(cases), "behaviours": len(cases), "kinds": kindsCount, "drift": drift,
-			"order_dependent_cases": multi}
+		meta = map[string]any{"events": out.n, "cases": *n, "behaviours": runs, "kinds": kindsCount, "drift": drift,
+			"order_dependent_cases": multi, "reevaluations": reevals}
 	case "expiry", "expiry-random":
 		var behs []filterh.ExBehaviour
 		src := "gen"
